@@ -66,7 +66,7 @@ def run_case(case, ctx):
         for j, e in enumerate(structs):
             recipe["files"].append({"path": f"pkg{j}/__init__.py", "kind": "text", "style": "python", "multi": False, "body": "twin",
                                     "sources": [{"carrier": "dotlicense", "copyrights": ["2019 Same Everywhere"], "exprs": [e], "toml_dir": ""}]})
-    root = ctx.scratch / f"c18-{k}"
+    top, root = trees.odd_root(ctx.scratch, "c18", k)
     outdir = ctx.scratch / f"c18-{k}-out"
     try:
         trees.build(recipe, root, ctx.state["styles"])
@@ -116,7 +116,7 @@ def run_case(case, ctx):
         if k == 2:
             res.sample = {"args": args[3:], "document_head": doc[:900]}
     finally:
-        shutil.rmtree(root, ignore_errors=True)
+        shutil.rmtree(top, ignore_errors=True)
         shutil.rmtree(outdir, ignore_errors=True)
     return res.out()
 
